@@ -187,7 +187,7 @@ def generate(src):
         oblige(s, "get_task_delay/post: otherwise whole seconds d with T <= now + d < T + 1 s  [C14]",
                Implies(And(timeb, now_us < T, T <= Hz), And(Val.is_intv(r), T <= now_us + Val.i(r) * US, now_us + Val.i(r) * US < T + US)), witness=W2, replay=rp)
         oblige(s, "get_task_delay/post: the time branch never consults the cron matcher  [C14]", Implies(timeb, g['is_now_calls'] == 0), witness=W2, replay=rp)
-        reach(s, f"get_task_delay/reach@return#{exits['return']}")
+        reach(s, f"get_task_delay/reach@return#{exits['return']}", witness=W2, replay=rp)
     def on_exc(s, x):
         exits['raise'] += 1; g = G(s)
         oblige(s, "get_task_delay/raises: only what is_now raises (ValueError) or an unknown zone name (KeyError from pytz.timezone)  [C13/C14]",
